@@ -255,6 +255,55 @@ def r_ufunc_reduce_out(x, rs):
     np.add.reduce(np.ones((2,) + (x.shape[1],), dtype=x.dtype), axis=0, out=x[0])
 
 
+def r_ufunc_reduce_out_direct(x, rs):
+    # reduce over a new leading axis straight into x
+    np.add.reduce(np.ones((2,) + x.shape, dtype=x.dtype), axis=0, out=x)
+
+
+def r_ufunc_accumulate_out(x, rs):
+    np.maximum.accumulate(x, axis=0, out=x)
+
+
+def r_ufunc_accumulate_add_out(x, rs):
+    np.add.accumulate(x, axis=0, out=x)
+
+
+def r_ufunc_outer_out(x, rs):
+    if x.ndim != 2:
+        raise NotApplicable
+    np.multiply.outer(np.arange(x.shape[0]).astype(x.dtype), np.ones(x.shape[1], dtype=x.dtype), out=x)
+
+
+def r_ufunc_reduceat_out(x, rs):
+    if x.ndim != 1 or x.shape[0] < 1:
+        raise NotApplicable
+    np.add.reduceat(np.ones(2 * x.shape[0], dtype=x.dtype), np.arange(0, 2 * x.shape[0], 2), out=x)
+
+
+def r_method_cumsum_out(x, rs):
+    x.cumsum(axis=0, out=x)
+
+
+def r_method_max_out(x, rs):
+    np.ones((2,) + x.shape, dtype=x.dtype).max(axis=0, out=x)
+
+
+def r_method_sum_out(x, rs):
+    (np.ones((3,) + x.shape, dtype=x.dtype) * 2).sum(axis=0, out=x)
+
+
+def r_method_round_out(x, rs):
+    if x.dtype.kind != "f":
+        raise NotApplicable
+    (x * 1.37).round(1, out=x)
+
+
+def r_method_dot_out(x, rs):
+    if x.ndim != 2 or x.shape[0] != x.shape[1] or x.dtype.kind != "f" or not x.flags["C_CONTIGUOUS"]:
+        raise NotApplicable
+    (np.eye(x.shape[0]) * 3.0).dot(np.eye(x.shape[0]), out=x)
+
+
 def r_copyto(x, rs):
     np.copyto(x, _val(x, rs))
 
@@ -377,6 +426,16 @@ ROUTES = {
     "ufunc_out_plain_inputs": r_ufunc_out_other_input,
     "ufunc_at": r_ufunc_at,
     "ufunc_reduce_out": r_ufunc_reduce_out,
+    "ufunc_reduce_out_direct": r_ufunc_reduce_out_direct,
+    "ufunc_accumulate_out": r_ufunc_accumulate_out,
+    "ufunc_accumulate_add_out": r_ufunc_accumulate_add_out,
+    "ufunc_outer_out": r_ufunc_outer_out,
+    "ufunc_reduceat_out": r_ufunc_reduceat_out,
+    "method_cumsum_out": r_method_cumsum_out,
+    "method_max_out": r_method_max_out,
+    "method_sum_out": r_method_sum_out,
+    "method_round_out": r_method_round_out,
+    "method_dot_out": r_method_dot_out,
     "copyto": r_copyto,
     "np_put": r_np_put,
     "place": r_place,
